@@ -268,6 +268,12 @@ class SymInt:
     def __hash__(self):
         raise Unsupported("hash of symbolic int (use SymDict/SymSet)")
 
+    def __copy__(self):
+        return self
+
+    def __deepcopy__(self, memo):
+        return self
+
     def __repr__(self):
         return "<SymInt %d..%d>" % (self.lo, self.hi)
 
